@@ -1038,6 +1038,7 @@ def extract(ctx):
     budgeted = is_budgeted_tree()
     lenient = is_lenient_sf_tree()
     shared = is_shared_seen_tree()
+    merged = is_level_merged_tree()
     return {"PyGqlModel/Generated/DepthVariant.lean": (
         "/- GENERATED by harness/corr/C19.py: extract() from src/py_gql/utilities/{max_depth,collect_fields}.py — do not edit. -/\n"
         "namespace PyGql.Generated.DepthVariant\n\n"
@@ -1049,7 +1050,42 @@ def extract(ctx):
         "def lenientSelectedFields : Bool := %s\n\n"
         "/-- `collect_fields_untyped` keeps ONE visited-fragments set per collection (`if _seen_fragments is None`, C19-H2.patch) -/\n"
         "def sharedSeen : Bool := %s\n\n"
-        "end PyGql.Generated.DepthVariant\n" % tuple("true" if x else "false" for x in (tolerant, budgeted, lenient, shared)))}
+        "/-- `_nesting_levels` keeps ONE list of selections per level (C19-H3.patch) instead of a frontier of merged sub-selection lists -/\n"
+        "def levelMerged : Bool := %s\n\n"
+        "end PyGql.Generated.DepthVariant\n" % tuple("true" if x else "false" for x in (tolerant, budgeted, lenient, shared, merged)))}
+
+
+def is_level_merged_tree():
+    """shape of the loop of `_nesting_levels`: a `for ... in frontier` over a list of selection lists (today), or ONE list per level
+       handed to `collect_fields_untyped` directly in the `while` body (C19-H3.patch: model `nestingLevelsM`)"""
+    import ast as pyast
+    from common import REPO
+    tree = pyast.parse((REPO / "src/py_gql/utilities/max_depth.py").read_text())
+    fn = [n for n in pyast.walk(tree) if isinstance(n, pyast.FunctionDef) and n.name == "_nesting_levels"]
+    if not fn:
+        return False
+    loops = [n for n in pyast.walk(fn[0]) if isinstance(n, pyast.While)]
+    if not loops:
+        return False                       # the recursive versions (before C19-Q3.patch)
+    if len(loops) != 1:
+        raise ValueError("_nesting_levels has an unknown shape (several while loops)")
+    w = loops[0]
+    cond = pyast.unparse(w.test)
+
+    def collect_calls(node):
+        return [c for c in pyast.walk(node) if isinstance(c, pyast.Call) and pyast.unparse(c.func) == "collect_fields_untyped"]
+    direct = [st for st in w.body if not isinstance(st, (pyast.For, pyast.While)) and collect_calls(st)]
+    nested = [st for st in w.body if isinstance(st, pyast.For) and collect_calls(st)]
+    if nested and not direct:
+        if cond != "frontier" or pyast.unparse(nested[0].iter) != "frontier":
+            raise ValueError("_nesting_levels iterates over an unknown frontier (%s)" % cond)
+        return False
+    if direct and not nested:
+        call = collect_calls(direct[0])[0]
+        if not call.args or pyast.unparse(call.args[0]) != cond:
+            raise ValueError("_nesting_levels collects something else than the list its loop tests (%s)" % cond)
+        return True
+    raise ValueError("_nesting_levels has an unknown shape (where collect_fields_untyped is called)")
 
 
 def is_shared_seen_tree():
